@@ -201,7 +201,7 @@ def run(ctx):
         for i, p in enumerate(p for p in ret_paths(paths) if unwrap_ok(p.end[1]) is not None):
             cp = p.calls("std::io::copy")
             ok = len(cp) == 1 and strip_refs(cp[0].args[0]) == ("param", 1)
-            ups = [e for e in p.events if e.kind == "call" and e.path.endswith("::update")]
+            ups = [e for e in p.events if e.kind == "call" and e.path.endswith(("::update", "::chain_update"))]
             ctx.check(ok and not ups, "D3-FILE", fn, "ok-path-%d" % i, "io::copy(reader, hasher) is the only feeding call",
                       "expected exactly one io::copy from the reader argument and no other update", fn_span(body))
     # hash_str_internal: update(hasher, s) exactly once
@@ -210,11 +210,16 @@ def run(ctx):
     if paths:
         body = ctx.body(fn)
         for i, p in enumerate(ret_paths(paths)):
-            ups = [e for e in p.events if e.kind == "call" and e.path.endswith("::update")]
+            ups = [e for e in p.events if e.kind == "call" and e.path.endswith(("::update", "::chain_update"))]
             u1 = strip_refs(ups[0].args[1]) if len(ups) == 1 else None
+            chained_ok = True
+            if len(ups) == 1 and ups[0].path.endswith("::chain_update"):
+                # D::new().chain_update(s).finalize(): the hasher fed is a fresh one and the one finalised is the one that was fed
+                fin = [e for e in p.events if e.kind == "call" and e.path.endswith("::finalize")]
+                chained_ok = is_call(strip_refs(ups[0].args[0]), "Digest::new", "::new") and len(fin) == 1 and strip_refs(fin[0].args[0]) == strip_refs(ups[0].term)
             if is_call(u1, "str>::as_bytes", "String::as_bytes", "AsRef") and call_args(u1):
                 u1 = strip_refs(call_args(u1)[0])       # the same bytes (update takes impl AsRef<[u8]>)
-            ok = len(ups) == 1 and u1 == ("param", 1)
+            ok = len(ups) == 1 and u1 == ("param", 1) and chained_ok
             ctx.check(ok, "D3-STR", fn, "path-%d" % i, "update(hasher, s) exactly once",
                       "expected exactly one update with the input string, found %s" % [term_str(u.args[1]) for u in ups], fn_span(body))
 
@@ -416,7 +421,7 @@ def patch_filter(ctx, fx, sp):
     saw_skip = saw_keep = False
     for i, p in enumerate(backs):
         anyc = [e for e in p.events if e.kind == "call" and e.path.endswith("::any")]
-        ups = [e for e in p.events if e.kind == "call" and e.path.endswith("::update")]
+        ups = [e for e in p.events if e.kind == "call" and e.path.endswith(("::update", "::chain_update"))]
         if not anyc:
             ctx.violation("D5-FILTER", fn, "back-path-%d" % i, "a loop iteration reaches the back edge without evaluating the $NetBSD filter", body.span_of(p.blocks[-1]))
             continue
